@@ -13,7 +13,7 @@ run() { # harness prop cases extra...
   setarch -R .build/cov/$h --prop $p --seed 7 --cases $n --max-size 300 --out $W/o.json --replay-dir $W --budget-ms 60000 --opt leakcheck=1 "$@" >/dev/null 2>&1
 }
 N=${1:-150}
-for l in L0 L1 L2 L2p L3 L3b L3d evalp; do run h_exec C18 $N --excl $EX --opt layer=$l & done
+for l in L0 L1 L1b L1m L2 L2p L2c L3 L3b L3d evalp; do run h_exec C18 $N --excl $EX --opt layer=$l & done
 run h_exec C19 $N --excl $EX & run h_exec C19 $N --excl $EX --opt anydelay=1 & run h_exec C03 $N --excl $EX & run h_exec C16 $N --excl $EX & run h_exec C17 $N --excl $EX &
 wait
 for p in C07 C08 C09 C10 C11 C12 C13 C14; do run h_net $p $N --opt setb=1 --opt xkind=1 & done
